@@ -1,5 +1,798 @@
 import JunoModel.C10.Model
-/-! C10 — helper lemmas. -/
+/-! C10 — helper lemmas: list facts, inversion of `WF`, consequences of `Ideal`, one-step
+unfoldings of the two verifier loops, and the soundness / completeness inductions. -/
+set_option linter.unusedSectionVars false
+set_option linter.unnecessarySimpa false
+
 namespace Juno.C10
+
+variable {H : Type} [DecidableEq H] {A : HashAlg H}
+
+/-! ### lists -/
+
+theorem headD_drop (k : Path) (n : Nat) : (k.drop n).headD false = k.getD n false := by
+  induction k generalizing n with
+  | nil => simp
+  | cons x xs ih => cases n with
+    | zero => simp
+    | succ n => simpa using ih n
+
+theorem isPrefixOf_true_iff {a b : Path} : a.isPrefixOf b = true ↔ a <+: b :=
+  List.isPrefixOf_iff_prefix
+
+/-- `EqualMSBs` is the prefix test when the key side is at least as long as the path. -/
+theorem pathCompat_of_le {rem p : Path} (h : p.length ≤ rem.length) :
+    pathCompat rem p = p.isPrefixOf rem := by
+  unfold pathCompat
+  cases h1 : rem.isPrefixOf p with
+  | false => simp
+  | true =>
+    have hp : rem <+: p := isPrefixOf_true_iff.mp h1
+    have hlen : rem.length ≤ p.length := hp.length_le
+    have : rem = p := hp.eq_of_length (by omega)
+    subst this
+    simp
+
+theorem pathCompat_comm (a b : Path) : pathCompat a b = pathCompat b a := by
+  unfold pathCompat; exact Bool.or_comm _ _
+
+/-! ### `WF` inversion -/
+
+theorem WF.leaf_inv {v : H} {m : Nat} (h : WF (Tree.leaf v) m) : m = 0 := by
+  cases h; rfl
+
+theorem WF.bin_inv {l r : Tree H} {m : Nat} (h : WF (Tree.bin l r) m) :
+    ∃ n, m = n + 1 ∧ WF l n ∧ WF r n := by
+  cases h with
+  | bin hl hr => exact ⟨_, rfl, hl, hr⟩
+
+theorem WF.edge_inv {p : Path} {c : Tree H} {m : Nat} (h : WF (Tree.edge p c) m) :
+    ∃ n, m = p.length + n ∧ p ≠ [] ∧ WF c n := by
+  generalize hs : Tree.edge p c = s at h
+  cases h with
+  | leaf v => cases hs
+  | bin _ _ => cases hs
+  | edge hp hc => cases hs; exact ⟨_, rfl, hp, hc⟩
+
+theorem WF.zero_inv {s : Tree H} (h : WF s 0) : ∃ v, s = Tree.leaf v := by
+  cases s with
+  | leaf v => exact ⟨v, rfl⟩
+  | bin l r => obtain ⟨n, hn, _⟩ := h.bin_inv; omega
+  | edge p c =>
+    obtain ⟨n, hn, hp, _⟩ := h.edge_inv
+    have : p.length = 0 := by omega
+    exact absurd (List.eq_nil_of_length_eq_zero this) hp
+
+/-! ### what `Ideal` says about a proof node with a given hash -/
+
+theorem pnode_of_hash_bin (hI : Ideal A) {nd : PNode H} {a b : H} (h : nd.hash A = A.bin a b) :
+    ∃ l r c, nd = PNode.bin l r c ∧ l.felt A = a ∧ r.felt A = b := by
+  cases nd with
+  | bin l r c =>
+    obtain ⟨h1, h2⟩ := hI.bin_inj _ _ _ _ h
+    exact ⟨l, r, c, rfl, h1, h2⟩
+  | edge p ch c => exact absurd h.symm (hI.bin_ne_edge _ _ _ _)
+
+theorem pnode_of_hash_edge (hI : Ideal A) {nd : PNode H} {c : H} {p : Path}
+    (h : nd.hash A = A.edge c p) : ∃ ch cc, nd = PNode.edge p ch cc ∧ ch.felt A = c := by
+  cases nd with
+  | bin l r cc => exact absurd h (hI.bin_ne_edge _ _ _ _)
+  | edge p' ch cc =>
+    obtain ⟨h1, h2⟩ := hI.edge_inj _ _ _ _ h
+    subst h2
+    exact ⟨ch, cc, rfl, h1⟩
+
+/-! ### node sets -/
+
+theorem PSet.get_mem {s : PSet H} {h : H} {n : PNode H} (hg : s.get h = some n) : (h, n) ∈ s := by
+  induction s with
+  | nil => simp [PSet.get] at hg
+  | cons e rest ih =>
+    obtain ⟨k, nd⟩ := e
+    simp only [PSet.get] at hg
+    split at hg
+    · rename_i hk; subst hk; cases hg; simp
+    · exact List.mem_cons_of_mem _ (ih hg)
+
+theorem PSet.get_isSome_of_mem {s : PSet H} {h : H} {n : PNode H} (hm : (h, n) ∈ s) :
+    ∃ n', s.get h = some n' := by
+  induction s with
+  | nil => simp at hm
+  | cons e rest ih =>
+    obtain ⟨k, nd⟩ := e
+    simp only [PSet.get]
+    split
+    · exact ⟨nd, rfl⟩
+    · rename_i hk
+      rcases List.mem_cons.mp hm with h1 | h1
+      · cases h1; exact absurd rfl hk
+      · exact ih h1
+
+/-! ### `trie.VerifyProof`: one iteration -/
+
+theorem verifyLAux_bin {P : PSet H} {key : Path} {fuel pos : Nat} {e : H} {l r : Child H}
+    {c : Option H} (hget : P.get e = some (PNode.bin l r c))
+    (hh : (PNode.bin l r c).hash A = e) (hpos : pos < key.length) (h256 : key.length < 256) :
+    verifyLAux A P key (fuel + 1) e pos =
+      if pos + 1 ≥ key.length then Res.ok (if key.getD pos false then r.felt A else l.felt A)
+      else verifyLAux A P key fuel (if key.getD pos false then r.felt A else l.felt A) (pos + 1) := by
+  have hmod : (pos + 1) % 256 = pos + 1 := Nat.mod_eq_of_lt (by omega)
+  simp [verifyLAux, hget, hh, Nat.not_le.mpr hpos, hmod]
+
+theorem verifyLAux_edge {P : PSet H} {key : Path} {fuel pos : Nat} {e : H} {p : Path} {ch : Child H}
+    {c : Option H} (hget : P.get e = some (PNode.edge p ch c))
+    (hh : (PNode.edge p ch c).hash A = e) (hfit : pos + p.length ≤ key.length)
+    (h256 : key.length < 256) :
+    verifyLAux A P key (fuel + 1) e pos =
+      if !p.isPrefixOf (key.drop pos) then Res.ok A.zero
+      else if pos + p.length ≥ key.length then Res.ok (ch.felt A)
+      else verifyLAux A P key fuel (ch.felt A) (pos + p.length) := by
+  have hmod : (pos + p.length) % 256 = pos + p.length := Nat.mod_eq_of_lt (by omega)
+  have hc : pathCompat (key.drop pos) p = p.isPrefixOf (key.drop pos) :=
+    pathCompat_of_le (by simp; omega)
+  simp [verifyLAux, hget, hh, hmod, hc]
+
+theorem get_of_WF_zero {s : Tree H} (h : WF s 0) (k : Path) : s.get A k = s.hash A := by
+  obtain ⟨v, rfl⟩ := h.zero_inv
+  rfl
+
+/-! ### `trie.VerifyProof` is sound against any node set -/
+
+theorem legacy_sound_aux (hI : Ideal A) (P : PSet H) (key : Path) (h256 : key.length < 256) :
+    ∀ (s : Tree H) (m pos fuel : Nat) (v : H), WF s m → 0 < m → pos + m = key.length →
+      verifyLAux A P key fuel (s.hash A) pos = Res.ok v → v = s.get A (key.drop pos) := by
+  intro s
+  induction s with
+  | leaf x => intro m pos fuel v hwf hm; have := hwf.leaf_inv; omega
+  | bin l r ihl ihr =>
+    intro m pos fuel v hwf hm hpos h
+    obtain ⟨n, rfl, hl, hr⟩ := hwf.bin_inv
+    cases fuel with
+    | zero => simp [verifyLAux] at h
+    | succ f =>
+      cases hget : P.get ((Tree.bin l r).hash A) with
+      | none => simp [verifyLAux, hget] at h
+      | some nd =>
+        by_cases hh : nd.hash A = (Tree.bin l r).hash A
+        · obtain ⟨l', r', c', rfl, hl', hr'⟩ := pnode_of_hash_bin hI (a := l.hash A) (b := r.hash A) hh
+          rw [verifyLAux_bin hget hh (by omega) h256] at h
+          have hget' : (Tree.bin l r).get A (key.drop pos) =
+              if key.getD pos false then r.get A (key.drop (pos + 1)) else l.get A (key.drop (pos + 1)) := by
+            simp [Tree.get, List.tail_drop]
+          rw [hget']
+          by_cases hend : pos + 1 ≥ key.length
+          · have hn : n = 0 := by omega
+            subst hn
+            rw [if_pos hend] at h
+            cases h
+            rw [get_of_WF_zero hl, get_of_WF_zero hr, hl', hr']
+          · rw [if_neg hend] at h
+            cases hb : key.getD pos false with
+            | true =>
+              rw [hb] at h; simp only [if_true] at h ⊢
+              rw [hr'] at h
+              exact ihr n (pos + 1) f v hr (by omega) (by omega) h
+            | false =>
+              rw [hb] at h; simp only [Bool.false_eq_true, if_false] at h ⊢
+              rw [hl'] at h
+              exact ihl n (pos + 1) f v hl (by omega) (by omega) h
+        · simp [verifyLAux, hget, hh] at h
+  | edge p c ih =>
+    intro m pos fuel v hwf hm hpos h
+    obtain ⟨n, rfl, hp, hc⟩ := hwf.edge_inv
+    cases fuel with
+    | zero => simp [verifyLAux] at h
+    | succ f =>
+      cases hget : P.get ((Tree.edge p c).hash A) with
+      | none => simp [verifyLAux, hget] at h
+      | some nd =>
+        by_cases hh : nd.hash A = (Tree.edge p c).hash A
+        · obtain ⟨ch, cc, rfl, hch⟩ := pnode_of_hash_edge hI (c := c.hash A) (p := p) hh
+          rw [verifyLAux_edge hget hh (by omega) h256] at h
+          simp only [Tree.get]
+          cases hpre : p.isPrefixOf (key.drop pos) with
+          | false =>
+            rw [hpre] at h; simp at h
+            simp [h]
+          | true =>
+            rw [hpre] at h
+            simp only [Bool.not_true, Bool.false_eq_true, if_false, if_true] at h ⊢
+            have hdd : (key.drop pos).drop p.length = key.drop (pos + p.length) := by
+              rw [List.drop_drop]
+            rw [hdd]
+            by_cases hend : pos + p.length ≥ key.length
+            · have hn : n = 0 := by omega
+              subst hn
+              rw [if_pos hend] at h
+              cases h
+              rw [get_of_WF_zero hc, hch]
+            · rw [if_neg hend, hch] at h
+              exact ih n (pos + p.length) f v hc (by omega) (by omega) h
+        · simp [verifyLAux, hget, hh] at h
+
+/-! ### honest proof nodes -/
+
+theorem Tree.child_felt (t : Tree H) : (t.child A).felt A = t.hash A := by
+  cases t <;> rfl
+
+theorem Tree.pnode_hash {t : Tree H} {cached : Bool} {nd : PNode H} (h : t.pnode A cached = some nd) :
+    nd.hash A = t.hash A := by
+  cases t with
+  | leaf v => simp [Tree.pnode] at h
+  | bin l r => simp [Tree.pnode] at h; subst h; simp [PNode.hash, Tree.hash, Tree.child_felt]
+  | edge p c => simp [Tree.pnode] at h; subst h; simp [PNode.hash, Tree.hash, Tree.child_felt]
+
+theorem proveNodes_bin (l r : Tree H) (legacy cached : Bool) (k : Path) :
+    (Tree.bin l r).proveNodes A legacy cached k =
+      PNode.bin (l.child A) (r.child A) (if cached then some ((Tree.bin l r).hash A) else none) ::
+        (if k.headD false then r.proveNodes A legacy cached k.tail
+         else l.proveNodes A legacy cached k.tail) := by
+  simp [Tree.proveNodes, Tree.pnode]
+
+theorem proveNodes_edge (p : Path) (c : Tree H) (legacy cached : Bool) (k : Path) :
+    (Tree.edge p c).proveNodes A legacy cached k =
+      PNode.edge p (c.child A) (if cached then some ((Tree.edge p c).hash A) else none) ::
+        (if p.isPrefixOf k then c.proveNodes A legacy cached (k.drop p.length)
+         else if legacy then (c.pnode A cached).toList else []) := by
+  simp [Tree.proveNodes, Tree.pnode]
+
+/-! ### `trie.VerifyProof` accepts every self-consistent node set that contains the honest proof -/
+
+theorem legacy_complete_aux (hI : Ideal A) (P : PSet H) (key : Path) (h256 : key.length < 256)
+    (hcons : ∀ e ∈ P, e.1 = e.2.hash A) (legacy cached : Bool) :
+    ∀ (s : Tree H) (m pos fuel : Nat), WF s m → 0 < m → pos + m = key.length → m ≤ fuel →
+      (∀ nd ∈ s.proveNodes A legacy cached (key.drop pos), (nd.hash A, nd) ∈ P) →
+      verifyLAux A P key fuel (s.hash A) pos = Res.ok (s.get A (key.drop pos)) := by
+  intro s
+  induction s with
+  | leaf x => intro m pos fuel hwf hm; have := hwf.leaf_inv; omega
+  | bin l r ihl ihr =>
+    intro m pos fuel hwf hm hpos hfuel hsub
+    obtain ⟨n, rfl, hl, hr⟩ := hwf.bin_inv
+    obtain ⟨f, rfl⟩ : ∃ f, fuel = f + 1 := ⟨fuel - 1, by omega⟩
+    rw [proveNodes_bin] at hsub
+    have h0 := hsub _ (List.mem_cons_self ..)
+    have hh0 : (PNode.bin (l.child A) (r.child A)
+        (if cached then some ((Tree.bin l r).hash A) else none)).hash A = (Tree.bin l r).hash A := by
+      simp [PNode.hash, Tree.hash, Tree.child_felt]
+    rw [hh0] at h0
+    obtain ⟨nd, hget⟩ := PSet.get_isSome_of_mem h0
+    have hh : nd.hash A = (Tree.bin l r).hash A := (hcons _ (PSet.get_mem hget)).symm
+    obtain ⟨l', r', c', rfl, hl', hr'⟩ := pnode_of_hash_bin hI (a := l.hash A) (b := r.hash A) hh
+    rw [verifyLAux_bin hget hh (by omega) h256]
+    have hget' : (Tree.bin l r).get A (key.drop pos) =
+        if key.getD pos false then r.get A (key.drop (pos + 1)) else l.get A (key.drop (pos + 1)) := by
+      simp [Tree.get, List.tail_drop]
+    rw [hget']
+    have hsub' : ∀ nd ∈ (if key.getD pos false then r.proveNodes A legacy cached (key.drop (pos + 1))
+        else l.proveNodes A legacy cached (key.drop (pos + 1))), (nd.hash A, nd) ∈ P := by
+      intro nd hnd
+      apply hsub nd
+      apply List.mem_cons_of_mem
+      simpa [List.tail_drop] using hnd
+    by_cases hend : pos + 1 ≥ key.length
+    · have hn : n = 0 := by omega
+      subst hn
+      rw [if_pos hend, get_of_WF_zero hl, get_of_WF_zero hr, hl', hr']
+    · rw [if_neg hend]
+      cases hb : key.getD pos false with
+      | true =>
+        rw [hb] at hsub'
+        simp only [if_true] at hsub' ⊢
+        rw [hr']
+        exact ihr n (pos + 1) f hr (by omega) (by omega) (by omega) hsub'
+      | false =>
+        rw [hb] at hsub'
+        simp only [Bool.false_eq_true, if_false] at hsub' ⊢
+        rw [hl']
+        exact ihl n (pos + 1) f hl (by omega) (by omega) (by omega) hsub'
+  | edge p c ih =>
+    intro m pos fuel hwf hm hpos hfuel hsub
+    obtain ⟨n, rfl, hp, hc⟩ := hwf.edge_inv
+    have hplen : 0 < p.length := List.length_pos_iff.mpr hp
+    obtain ⟨f, rfl⟩ : ∃ f, fuel = f + 1 := ⟨fuel - 1, by omega⟩
+    rw [proveNodes_edge] at hsub
+    have h0 := hsub _ (List.mem_cons_self ..)
+    have hh0 : (PNode.edge p (c.child A)
+        (if cached then some ((Tree.edge p c).hash A) else none)).hash A = (Tree.edge p c).hash A := by
+      simp [PNode.hash, Tree.hash, Tree.child_felt]
+    rw [hh0] at h0
+    obtain ⟨nd, hget⟩ := PSet.get_isSome_of_mem h0
+    have hh : nd.hash A = (Tree.edge p c).hash A := (hcons _ (PSet.get_mem hget)).symm
+    obtain ⟨ch, cc, rfl, hch⟩ := pnode_of_hash_edge hI (c := c.hash A) (p := p) hh
+    rw [verifyLAux_edge hget hh (by omega) h256]
+    simp only [Tree.get]
+    cases hpre : p.isPrefixOf (key.drop pos) with
+    | false => simp
+    | true =>
+      rw [hpre] at hsub
+      simp only [Bool.not_true, Bool.false_eq_true, if_false, if_true] at hsub ⊢
+      have hdd : (key.drop pos).drop p.length = key.drop (pos + p.length) := by
+        rw [List.drop_drop]
+      rw [hdd] at hsub ⊢
+      by_cases hend : pos + p.length ≥ key.length
+      · have hn : n = 0 := by omega
+        subst hn
+        rw [if_pos hend, get_of_WF_zero hc, hch]
+      · rw [if_neg hend, hch]
+        exact ih n (pos + p.length) f hc (by omega) (by omega) (by omega)
+          (fun nd hnd => hsub nd (List.mem_cons_of_mem _ hnd))
+
+/-! ### `trie2.VerifyProof` -/
+
+theorem hash_ne_zero (hI : Ideal A) {t : Tree H} {n : Nat} (hwf : WF t n) (hn : 0 < n) :
+    t.hash A ≠ A.zero := by
+  cases t with
+  | leaf v => have := hwf.leaf_inv; omega
+  | bin l r => exact hI.bin_ne_zero _ _
+  | edge p c => exact hI.edge_ne_zero _ _
+
+/-- what `VerifyProof` does with the child `get` returned -/
+def after2 (A : HashAlg H) (cfg : Cfg) (P : PSet H) (fuel : Nat) (c : Child H) (key' : Path) : Res H :=
+  match c.tag with
+  | .nil => .ok A.zero
+  | .hash => if key'.length = 0 then .ok c.h else verify2Aux A cfg P fuel c.h key'
+  | .value => if cfg.earlyValue || key'.length = 0 then .ok c.h else .earlyValue
+
+theorem verify2Aux_succ {cfg : Cfg} {P : PSet H} {key : Path} {fuel : Nat} {e : H} {nd : PNode H}
+    (hget : P.get e = some nd) (hh : nd.hash2 A cfg = e) :
+    verify2Aux A cfg P (fuel + 1) e key =
+      match step2 nd key with
+      | (none, _) => Res.ok A.zero
+      | (some c, key') => after2 A cfg P fuel c key' := by
+  simp only [verify2Aux, hget, hh, ne_eq, not_true_eq_false, if_false, after2]
+  rfl
+
+theorem after2_sound (hI : Ideal A) {cfg : Cfg} {P : PSet H} {t' : Tree H} {n fuel : Nat}
+    {ch : Child H} {key' : Path} {v : H}
+    (hwf : WF t' n) (hk : key'.length = n) (hf : ch.felt A = t'.hash A)
+    (hnv : cfg.earlyValue = true → ch.tag ≠ Tag.value)
+    (ih : 0 < n → verify2Aux A cfg P fuel (t'.hash A) key' = Res.ok v → v = t'.get A key')
+    (h : after2 A cfg P fuel ch key' = Res.ok v) : v = t'.get A key' := by
+  unfold after2 at h
+  cases htag : ch.tag with
+  | nil =>
+    rw [htag] at h; simp at h
+    have hz : t'.hash A = A.zero := by rw [← hf]; simp [Child.felt, htag]
+    by_cases hn : 0 < n
+    · exact absurd hz (hash_ne_zero hI hwf hn)
+    · have : n = 0 := by omega
+      subst this
+      rw [get_of_WF_zero hwf, hz, h]
+  | hash =>
+    rw [htag] at h; simp only at h
+    have hfe : ch.h = t'.hash A := by rw [← hf]; simp [Child.felt, htag]
+    by_cases hn : n = 0
+    · subst hn
+      rw [if_pos hk] at h
+      cases h
+      rw [get_of_WF_zero hwf, hfe]
+    · rw [if_neg (by omega), hfe] at h
+      exact ih (by omega) h
+  | value =>
+    rw [htag] at h; simp only at h
+    have hfe : ch.h = t'.hash A := by rw [← hf]; simp [Child.felt, htag]
+    have hev : cfg.earlyValue = false := by
+      cases hc : cfg.earlyValue with
+      | false => rfl
+      | true => exact absurd htag (hnv hc)
+    rw [hev] at h
+    by_cases hn : n = 0
+    · subst hn
+      simp [hk] at h
+      rw [get_of_WF_zero hwf, ← hfe, h]
+    · have : ¬ key'.length = 0 := by omega
+      simp [this] at h
+
+/-- no child of the node is typed as a value node -/
+def PNode.noValue : PNode H → Prop
+  | .bin l r _ => l.tag ≠ Tag.value ∧ r.tag ≠ Tag.value
+  | .edge _ c _ => c.tag ≠ Tag.value
+
+theorem hash2_eq_hash {cfg : Cfg} {nd : PNode H} (h : cfg.trustCache = true → nd.cache = none) :
+    nd.hash2 A cfg = nd.hash A := by
+  unfold PNode.hash2
+  cases hc : cfg.trustCache with
+  | false => simp
+  | true => simp [h hc]
+
+theorem trie2_sound_aux (hI : Ideal A) (cfg : Cfg) (P : PSet H)
+    (hcache : cfg.trustCache = true → ∀ e ∈ P, e.2.cache = none)
+    (hval : cfg.earlyValue = true → ∀ e ∈ P, e.2.noValue) :
+    ∀ (s : Tree H) (m fuel : Nat) (key : Path) (v : H), WF s m → 0 < m → key.length = m →
+      verify2Aux A cfg P fuel (s.hash A) key = Res.ok v → v = s.get A key := by
+  intro s
+  induction s with
+  | leaf x => intro m fuel key v hwf hm; have := hwf.leaf_inv; omega
+  | bin l r ihl ihr =>
+    intro m fuel key v hwf hm hk h
+    obtain ⟨n, rfl, hl, hr⟩ := hwf.bin_inv
+    cases fuel with
+    | zero => simp [verify2Aux] at h
+    | succ f =>
+      cases hget : P.get ((Tree.bin l r).hash A) with
+      | none => simp [verify2Aux, hget] at h
+      | some nd =>
+        have hmem := PSet.get_mem hget
+        have h2 : nd.hash2 A cfg = nd.hash A := hash2_eq_hash (fun hc => hcache hc _ hmem)
+        by_cases hh : nd.hash A = (Tree.bin l r).hash A
+        · obtain ⟨l', r', c', rfl, hl', hr'⟩ := pnode_of_hash_bin hI (a := l.hash A) (b := r.hash A) hh
+          rw [verify2Aux_succ hget (h2.trans hh)] at h
+          simp only [step2] at h
+          have hkl : (key.drop 1).length = n := by simp; omega
+          simp only [Tree.get]
+          have hnv : cfg.earlyValue = true → l'.tag ≠ Tag.value ∧ r'.tag ≠ Tag.value :=
+            fun hc => hval hc _ hmem
+          cases hb : key.headD false with
+          | true =>
+            rw [hb] at h; simp only [if_true] at h ⊢
+            rw [← List.drop_one]
+            exact after2_sound hI hr hkl hr' (fun hc => (hnv hc).2)
+              (fun hn hv => ihr n f _ v hr hn hkl hv) h
+          | false =>
+            rw [hb] at h; simp only [Bool.false_eq_true, if_false] at h ⊢
+            rw [← List.drop_one]
+            exact after2_sound hI hl hkl hl' (fun hc => (hnv hc).1)
+              (fun hn hv => ihl n f _ v hl hn hkl hv) h
+        · rw [← h2] at hh
+          simp [verify2Aux, hget, hh] at h
+  | edge p c ih =>
+    intro m fuel key v hwf hm hk h
+    obtain ⟨n, rfl, hp, hc⟩ := hwf.edge_inv
+    cases fuel with
+    | zero => simp [verify2Aux] at h
+    | succ f =>
+      cases hget : P.get ((Tree.edge p c).hash A) with
+      | none => simp [verify2Aux, hget] at h
+      | some nd =>
+        have hmem := PSet.get_mem hget
+        have h2 : nd.hash2 A cfg = nd.hash A := hash2_eq_hash (fun hc => hcache hc _ hmem)
+        by_cases hh : nd.hash A = (Tree.edge p c).hash A
+        · obtain ⟨ch, cc, rfl, hch⟩ := pnode_of_hash_edge hI (c := c.hash A) (p := p) hh
+          rw [verify2Aux_succ hget (h2.trans hh)] at h
+          have hcomp : pathCompat p key = p.isPrefixOf key := by
+            rw [pathCompat_comm]; exact pathCompat_of_le (by omega)
+          simp only [step2, hcomp] at h
+          simp only [Tree.get]
+          cases hpre : p.isPrefixOf key with
+          | false =>
+            rw [hpre] at h; simp at h
+            simp [h]
+          | true =>
+            rw [hpre] at h
+            simp only [Bool.not_true, Bool.false_eq_true, if_false, if_true] at h ⊢
+            have hkl : (key.drop p.length).length = n := by simp; omega
+            exact after2_sound hI hc hkl hch (fun hcv => hval hcv _ hmem)
+              (fun hn hv => ih n f _ v hc hn hkl hv) h
+        · rw [← h2] at hh
+          simp [verify2Aux, hget, hh] at h
+
+theorem after2_complete {cfg : Cfg} {P : PSet H} {t' : Tree H} {n fuel : Nat} {key' : Path}
+    (hwf : WF t' n) (hk : key'.length = n)
+    (ih : 0 < n → verify2Aux A cfg P fuel (t'.hash A) key' = Res.ok (t'.get A key')) :
+    after2 A cfg P fuel (t'.child A) key' = Res.ok (t'.get A key') := by
+  unfold after2
+  cases t' with
+  | leaf v =>
+    have : n = 0 := hwf.leaf_inv
+    subst this
+    simp [Tree.child, hk, Tree.get]
+  | bin l r =>
+    obtain ⟨n', rfl, _, _⟩ := hwf.bin_inv
+    have : ¬ key'.length = 0 := by omega
+    simp only [Tree.child, this, if_false]
+    exact ih (by omega)
+  | edge p c =>
+    obtain ⟨n', rfl, hp, _⟩ := hwf.edge_inv
+    have hplen : 0 < p.length := List.length_pos_iff.mpr hp
+    have : ¬ key'.length = 0 := by omega
+    simp only [Tree.child, this, if_false]
+    exact ih (by omega)
+
+theorem honest_hash2 (cfg : Cfg) (cached : Bool) (nd : PNode H) (h : H) (hh : nd.hash A = h)
+    (hc : nd.cache = if cached then some h else none) : nd.hash2 A cfg = h := by
+  unfold PNode.hash2
+  cases cached <;> cases cfg.trustCache <;> simp_all
+
+theorem trie2_complete_aux (cfg : Cfg) (P : PSet H) (legacy cached : Bool) :
+    ∀ (s : Tree H) (m fuel : Nat) (key : Path), WF s m → 0 < m → key.length = m → m ≤ fuel →
+      (∀ nd ∈ s.proveNodes A legacy cached key, P.get (nd.hash A) = some nd) →
+      verify2Aux A cfg P fuel (s.hash A) key = Res.ok (s.get A key) := by
+  intro s
+  induction s with
+  | leaf x => intro m fuel key hwf hm; have := hwf.leaf_inv; omega
+  | bin l r ihl ihr =>
+    intro m fuel key hwf hm hk hfuel hlook
+    obtain ⟨n, rfl, hl, hr⟩ := hwf.bin_inv
+    obtain ⟨f, rfl⟩ : ∃ f, fuel = f + 1 := ⟨fuel - 1, by omega⟩
+    rw [proveNodes_bin] at hlook
+    have h0 := hlook _ (List.mem_cons_self ..)
+    have hh0 : (PNode.bin (l.child A) (r.child A)
+        (if cached then some ((Tree.bin l r).hash A) else none)).hash A = (Tree.bin l r).hash A := by
+      simp [PNode.hash, Tree.hash, Tree.child_felt]
+    rw [hh0] at h0
+    rw [verify2Aux_succ h0 (honest_hash2 cfg cached _ _ hh0 rfl)]
+    have hkl : (key.drop 1).length = n := by simp; omega
+    simp only [step2, Tree.get]
+    rw [← List.drop_one]
+    cases hb : key.headD false with
+    | true =>
+      rw [hb] at hlook
+      simp only [if_true] at hlook ⊢
+      exact after2_complete hr hkl (fun hn => ihr n f _ hr hn hkl (by omega)
+        (fun nd hnd => hlook nd (List.mem_cons_of_mem _ (by simpa [List.drop_one] using hnd))))
+    | false =>
+      rw [hb] at hlook
+      simp only [Bool.false_eq_true, if_false] at hlook ⊢
+      exact after2_complete hl hkl (fun hn => ihl n f _ hl hn hkl (by omega)
+        (fun nd hnd => hlook nd (List.mem_cons_of_mem _ (by simpa [List.drop_one] using hnd))))
+  | edge p c ih =>
+    intro m fuel key hwf hm hk hfuel hlook
+    obtain ⟨n, rfl, hp, hc⟩ := hwf.edge_inv
+    have hplen : 0 < p.length := List.length_pos_iff.mpr hp
+    obtain ⟨f, rfl⟩ : ∃ f, fuel = f + 1 := ⟨fuel - 1, by omega⟩
+    rw [proveNodes_edge] at hlook
+    have h0 := hlook _ (List.mem_cons_self ..)
+    have hh0 : (PNode.edge p (c.child A)
+        (if cached then some ((Tree.edge p c).hash A) else none)).hash A = (Tree.edge p c).hash A := by
+      simp [PNode.hash, Tree.hash, Tree.child_felt]
+    rw [hh0] at h0
+    rw [verify2Aux_succ h0 (honest_hash2 cfg cached _ _ hh0 rfl)]
+    have hcomp : pathCompat p key = p.isPrefixOf key := by
+      rw [pathCompat_comm]; exact pathCompat_of_le (by omega)
+    simp only [step2, hcomp, Tree.get]
+    cases hpre : p.isPrefixOf key with
+    | false => simp
+    | true =>
+      rw [hpre] at hlook
+      simp only [Bool.not_true, Bool.false_eq_true, if_false, if_true] at hlook ⊢
+      have hkl : (key.drop p.length).length = n := by simp; omega
+      exact after2_complete hc hkl (fun hn => ih n f _ hc hn hkl (by omega)
+        (fun nd hnd => hlook nd (List.mem_cons_of_mem _ hnd)))
+
+/-! ### the honest node set returns the honest node for every honest hash (no hash cycles) -/
+
+theorem toPSet_get_of_pairwise (ns : List (PNode H))
+    (hp : ns.Pairwise (fun a b => a.hash A ≠ b.hash A)) :
+    ∀ nd ∈ ns, (toPSet A ns).get (nd.hash A) = some nd := by
+  induction ns with
+  | nil => intro nd h; simp at h
+  | cons x xs ih =>
+    intro nd hnd
+    rw [List.pairwise_cons] at hp
+    simp only [toPSet, List.map_cons, PSet.get]
+    rcases List.mem_cons.mp hnd with h1 | h1
+    · subst h1; simp
+    · have : x.hash A ≠ nd.hash A := hp.1 nd h1
+      simp only [this, if_false]
+      exact ih hp.2 nd h1
+
+theorem proveNodes_rank (rank : H → Nat)
+    (hb : ∀ a b, rank a < rank (A.bin a b) ∧ rank b < rank (A.bin a b))
+    (he : ∀ c p, rank c < rank (A.edge c p)) (legacy cached : Bool) :
+    ∀ (s : Tree H) (key : Path),
+      (∀ nd ∈ s.proveNodes A legacy cached key, rank (nd.hash A) ≤ rank (s.hash A)) ∧
+      (s.proveNodes A legacy cached key).Pairwise (fun a b => rank (b.hash A) < rank (a.hash A)) := by
+  intro s
+  induction s with
+  | leaf v => intro key; simp [Tree.proveNodes]
+  | bin l r ihl ihr =>
+    intro key
+    rw [proveNodes_bin]
+    have hh0 : (PNode.bin (l.child A) (r.child A)
+        (if cached then some ((Tree.bin l r).hash A) else none)).hash A = (Tree.bin l r).hash A := by
+      simp [PNode.hash, Tree.hash, Tree.child_felt]
+    have hrest : ∀ nd ∈ (if key.headD false then r.proveNodes A legacy cached key.tail
+        else l.proveNodes A legacy cached key.tail), rank (nd.hash A) < rank ((Tree.bin l r).hash A) := by
+      intro nd hnd
+      cases hbit : key.headD false with
+      | true =>
+        rw [hbit] at hnd; simp only [if_true] at hnd
+        exact Nat.lt_of_le_of_lt ((ihr _).1 nd hnd) (hb _ _).2
+      | false =>
+        rw [hbit] at hnd; simp only [Bool.false_eq_true, if_false] at hnd
+        exact Nat.lt_of_le_of_lt ((ihl _).1 nd hnd) (hb _ _).1
+    refine ⟨?_, ?_⟩
+    · intro nd hnd
+      rcases List.mem_cons.mp hnd with h1 | h1
+      · subst h1; rw [hh0]; exact Nat.le_refl _
+      · exact Nat.le_of_lt (hrest nd h1)
+    · rw [List.pairwise_cons]
+      refine ⟨fun nd hnd => by rw [hh0]; exact hrest nd hnd, ?_⟩
+      cases key.headD false
+      · simpa using (ihl _).2
+      · simpa using (ihr _).2
+  | edge p c ih =>
+    intro key
+    rw [proveNodes_edge]
+    have hh0 : (PNode.edge p (c.child A)
+        (if cached then some ((Tree.edge p c).hash A) else none)).hash A = (Tree.edge p c).hash A := by
+      simp [PNode.hash, Tree.hash, Tree.child_felt]
+    have hrest : ∀ nd ∈ (if p.isPrefixOf key then c.proveNodes A legacy cached (key.drop p.length)
+        else if legacy then (c.pnode A cached).toList else []),
+        rank (nd.hash A) < rank ((Tree.edge p c).hash A) := by
+      intro nd hnd
+      cases hpre : p.isPrefixOf key with
+      | true =>
+        rw [hpre] at hnd; simp only [if_true] at hnd
+        exact Nat.lt_of_le_of_lt ((ih _).1 nd hnd) (he _ _)
+      | false =>
+        rw [hpre] at hnd; simp only [Bool.false_eq_true, if_false] at hnd
+        cases legacy with
+        | false => simp at hnd
+        | true =>
+          simp only [if_true, Option.mem_toList] at hnd
+          rw [Tree.pnode_hash hnd]
+          exact he _ _
+    refine ⟨?_, ?_⟩
+    · intro nd hnd
+      rcases List.mem_cons.mp hnd with h1 | h1
+      · subst h1; rw [hh0]; exact Nat.le_refl _
+      · exact Nat.le_of_lt (hrest nd h1)
+    · rw [List.pairwise_cons]
+      refine ⟨fun nd hnd => by rw [hh0]; exact hrest nd hnd, ?_⟩
+      cases p.isPrefixOf key
+      · cases legacy
+        · simp
+        · cases c.pnode A cached <;> simp
+      · simpa using (ih _).2
+
+theorem honest_lookup (hac : Acyclic A) (legacy cached : Bool) (s : Tree H) (key : Path) :
+    ∀ nd ∈ s.proveNodes A legacy cached key,
+      (toPSet A (s.proveNodes A legacy cached key)).get (nd.hash A) = some nd := by
+  obtain ⟨rank, hb, he⟩ := hac
+  apply toPSet_get_of_pairwise
+  exact ((proveNodes_rank rank hb he legacy cached s key).2).imp
+    (fun h heq => by rw [heq] at h; exact Nat.lt_irrefl _ h)
+
+/-! ### the free term algebra is an ideal hash -/
+
+theorem pathVal_lt (p : Path) : pathVal p < 2 ^ p.length := by
+  induction p with
+  | nil => simp [pathVal]
+  | cons b p ih =>
+    simp only [pathVal, List.length_cons, Nat.pow_succ]
+    split <;> omega
+
+theorem pathVal_inj : ∀ (p q : Path), p.length = q.length → pathVal p = pathVal q → p = q := by
+  intro p
+  induction p with
+  | nil => intro q hl _; cases q with
+    | nil => rfl
+    | cons _ _ => simp at hl
+  | cons b p ih =>
+    intro q hl hv
+    cases q with
+    | nil => simp at hl
+    | cons c q =>
+      simp only [List.length_cons, Nat.add_right_cancel_iff] at hl
+      simp only [pathVal, hl] at hv
+      have h1 := pathVal_lt p
+      have h2 := pathVal_lt q
+      rw [hl] at h1
+      cases b <;> cases c <;> simp at hv
+      · rw [ih q hl hv]
+      · omega
+      · omega
+      · rw [ih q hl hv]
+
+def HTerm.rank : HTerm → Nat
+  | .felt _ => 0
+  | .ped a b => a.rank + b.rank + 1
+  | .add a _ => a.rank + 1
+
+theorem freeAlg_ideal : Ideal freeAlg where
+  bin_inj := by intro a b c d h; simp [HashAlg.bin, freeAlg] at h; exact h
+  edge_inj := by
+    intro c p c' p' h
+    simp [HashAlg.edge, freeAlg] at h
+    exact ⟨h.1.1, pathVal_inj p p' h.2 h.1.2⟩
+  bin_ne_edge := by intro a b c p h; simp [HashAlg.bin, HashAlg.edge, freeAlg] at h
+  bin_ne_zero := by intro a b h; simp [HashAlg.bin, freeAlg] at h
+  edge_ne_zero := by intro c p h; simp [HashAlg.edge, freeAlg] at h
+
+theorem freeAlg_acyclic : Acyclic freeAlg :=
+  ⟨HTerm.rank, by intro a b; simp [HashAlg.bin, freeAlg, HTerm.rank]; omega,
+    by intro c p; simp [HashAlg.edge, freeAlg, HTerm.rank]; omega⟩
+
+/-! ### top level: the verifiers on tries -/
+
+/-- A trie of height `n`: empty, or a well-formed tree of height `n`. -/
+def Trie.WF (t : Trie H) (n : Nat) : Prop :=
+  match t with
+  | none => True
+  | some t => Juno.C10.WF t n
+
+theorem verifyFuel_ge {n : Nat} (h : n < 256) : n ≤ verifyFuel := by unfold verifyFuel; omega
+
+theorem verifyL_nonzero {cfg : Cfg} {root : H} (key : Path) (P : PSet H) (h : root ≠ A.zero) :
+    verifyL A cfg root key P = verifyLAux A P key verifyFuel root 0 := by
+  simp [verifyL, h]
+
+theorem verify2_nonzero {cfg : Cfg} {root : H} (key : Path) (P : PSet H) (h : root ≠ A.zero) :
+    verify2 A cfg root key P = verify2Aux A cfg P verifyFuel root key := by
+  simp [verify2, h]
+
+theorem pnode_hash_ne_zero (hI : Ideal A) (nd : PNode H) : nd.hash A ≠ A.zero := by
+  cases nd with
+  | bin l r c => exact hI.bin_ne_zero _ _
+  | edge p ch c => exact hI.edge_ne_zero _ _
+
+theorem verifyLAux_zero_not_ok (hI : Ideal A) (P : PSet H) (key : Path) (fuel pos : Nat) (v : H) :
+    verifyLAux A P key fuel A.zero pos ≠ Res.ok v := by
+  cases fuel with
+  | zero => simp [verifyLAux]
+  | succ f =>
+    cases hget : P.get A.zero with
+    | none => simp [verifyLAux, hget]
+    | some nd => simp [verifyLAux, hget, pnode_hash_ne_zero hI nd]
+
+theorem verify2Aux_zero_not_ok (hI : Ideal A) (cfg : Cfg) (P : PSet H)
+    (hcache : cfg.trustCache = true → ∀ e ∈ P, e.2.cache = none)
+    (key : Path) (fuel : Nat) (v : H) :
+    verify2Aux A cfg P fuel A.zero key ≠ Res.ok v := by
+  cases fuel with
+  | zero => simp [verify2Aux]
+  | succ f =>
+    cases hget : P.get A.zero with
+    | none => simp [verify2Aux, hget]
+    | some nd =>
+      have h2 : nd.hash2 A cfg = nd.hash A :=
+        hash2_eq_hash (fun hc => hcache hc _ (PSet.get_mem hget))
+      simp [verify2Aux, hget, h2, pnode_hash_ne_zero hI nd]
+
+theorem legacy_sound (hI : Ideal A) (cfg : Cfg) (t : Trie H) (n : Nat) (hwf : t.WF n) (hn : 0 < n)
+    (h256 : n < 256) (k : Path) (hk : k.length = n) (P : PSet H) (v : H)
+    (h : verifyL A cfg (t.hash A) k P = Res.ok v) : v = t.get A k := by
+  cases t with
+  | none =>
+    simp only [Trie.hash, Trie.get] at h ⊢
+    unfold verifyL at h
+    split at h
+    · cases h; rfl
+    · exact absurd h (verifyLAux_zero_not_ok hI P k _ _ v)
+  | some s =>
+    simp only [Trie.hash, Trie.get] at h ⊢
+    rw [verifyL_nonzero k P (hash_ne_zero hI hwf hn)] at h
+    exact legacy_sound_aux hI P k (by omega) s n 0 verifyFuel v hwf hn (by omega) h
+
+theorem trie2_sound (hI : Ideal A) (cfg : Cfg) (t : Trie H) (n : Nat) (hwf : t.WF n) (hn : 0 < n)
+    (k : Path) (hk : k.length = n) (P : PSet H)
+    (hcache : cfg.trustCache = true → ∀ e ∈ P, e.2.cache = none)
+    (hval : cfg.earlyValue = true → ∀ e ∈ P, e.2.noValue) (v : H)
+    (h : verify2 A cfg (t.hash A) k P = Res.ok v) : v = t.get A k := by
+  cases t with
+  | none =>
+    simp only [Trie.hash, Trie.get] at h ⊢
+    unfold verify2 at h
+    split at h
+    · cases h; rfl
+    · exact absurd h (verify2Aux_zero_not_ok hI cfg P hcache k _ v)
+  | some s =>
+    simp only [Trie.hash, Trie.get] at h ⊢
+    rw [verify2_nonzero k P (hash_ne_zero hI hwf hn)] at h
+    exact trie2_sound_aux hI cfg P hcache hval s n verifyFuel k v hwf hn hk h
+
+theorem toPSet_consistent (ns : List (PNode H)) : ∀ e ∈ toPSet A ns, e.1 = e.2.hash A := by
+  intro e he
+  simp only [toPSet, List.mem_map] at he
+  obtain ⟨nd, _, rfl⟩ := he
+  rfl
+
+theorem legacy_complete_tree (hI : Ideal A) (cfg : Cfg) (s : Tree H) (n : Nat) (hwf : WF s n)
+    (hn : 0 < n) (h256 : n < 256) (k : Path) (hk : k.length = n) (legacy cached : Bool) (P : PSet H)
+    (hsub : ∀ nd ∈ s.proveNodes A legacy cached k, (nd.hash A, nd) ∈ P)
+    (hcons : ∀ e ∈ P, e.1 = e.2.hash A) :
+    verifyL A cfg (s.hash A) k P = Res.ok (s.get A k) := by
+  rw [verifyL_nonzero k P (hash_ne_zero hI hwf hn)]
+  exact legacy_complete_aux hI P k (by omega) hcons legacy cached s n 0 verifyFuel hwf hn (by omega)
+    (verifyFuel_ge h256) hsub
+
+theorem trie2_complete_tree (hI : Ideal A) (cfg : Cfg) (s : Tree H) (n : Nat) (hwf : WF s n)
+    (hn : 0 < n) (h256 : n < 256) (k : Path) (hk : k.length = n) (legacy cached : Bool) (P : PSet H)
+    (hlook : ∀ nd ∈ s.proveNodes A legacy cached k, P.get (nd.hash A) = some nd) :
+    verify2 A cfg (s.hash A) k P = Res.ok (s.get A k) := by
+  rw [verify2_nonzero k P (hash_ne_zero hI hwf hn)]
+  exact trie2_complete_aux cfg P legacy cached s n verifyFuel k hwf hn hk (verifyFuel_ge h256) hlook
 
 end Juno.C10
